@@ -20,6 +20,7 @@ func main() {
 		prop := fs.String("p", "", "property filter")
 		dump := fs.String("dump", "", "dump the query of the obligation with this name")
 		run := fs.Bool("run", false, "run the solvers")
+		only := fs.String("only", "", "only obligations whose name contains this")
 		timeout := fs.Int("t", 30, "timeout per obligation (s)")
 		repo := fs.String("repo", "/repo", "repository")
 		fs.Parse(os.Args[2:])
@@ -52,6 +53,9 @@ func main() {
 				if o.Name == *dump {
 					fmt.Println(o.Query(true))
 				}
+				continue
+			}
+			if *only != "" && !strings.Contains(o.Name, *only) {
 				continue
 			}
 			line := fmt.Sprintf("%-70s %-9s %s", o.Name, o.Kind, o.Pos)
